@@ -122,6 +122,7 @@ var kindsFor = map[string][]string{
 	"C13": {"nondeterministic-text"},
 	"C12": {"inverse", "alias", "unsupported"},
 	"C16": {"panic", "silent-truncation", "bad-name", "not-monotone", "cross-function"},
+	"C08": {"handover-mismatch"},
 	"C09": {"nil-but-not-in-force", "failed-load-left-state", "probe-changed-state"},
 	"C10": {"nil-but-not-in-force", "thread-not-covered", "flag-mismatch"},
 	"C11": {"failed-load-left-state", "nnp-wrong-thread"},
